@@ -19,6 +19,8 @@ func TestSim(t *testing.T) {
 			switch prop {
 			case "C01":
 				RunC01(st, tier, leg, logOn, res)
+			case "C04":
+				RunC04(st, tier, leg, logOn, res)
 			case "C09":
 				RunC09(st, tier, leg, logOn, res)
 			case "C10":
